@@ -82,11 +82,11 @@ CHECKS["C06"] = {"text": "Proved on the model: (a) after __update no task with a
 CHECKS["C10"] = {"text": "Proved on the model: at a project-wide absence step nothing is allocated, assigned or moved, no non-automatic task progresses, an automatic WORKING task loses exactly its unit rate iff "
     "the flag is set, nothing starts unless the flag is set; at every non-working row of the history all workers and facilities are logged ABSENCE and all cost entries at all levels are 0; a resource in "
     "state ABSENCE contributes 0 progress and costs 0, and the absence refresh of a working step sets ABSENCE exactly for the listed steps. DELETION clause proved for the task priority rules that do not read "
-    "PERT values (SPT, LPT, LRPT, SRPT, LWRPL, SWRPL) on any network and for TSLACK / EST on finish-to-start DAGs with non-negative work (all critical-path values shift by the number of absence steps, so slack and the order by EST are unchanged), with the auto-task flag off (or on when the project has no automatic task), no individual absence lists, disjoint component trees, a fresh run that succeeds: remove_absence_time_list applied to the result "
+    "PERT values (SPT, LPT, LRPT, SRPT, LWRPL, SWRPL) on any network, for EST on ANY network (cyclic or not, all four dependency kinds, tasks held WORKING below zero remaining work by FF/SF links included: every earliest start time shifts by the number of absence steps, Proofs/PertEst.v) and for TSLACK on finish-to-start DAGs with non-negative work (all critical-path values shift by the number of absence steps, so slack and the order by EST are unchanged), with the auto-task flag off (or on when the project has no automatic task), no individual absence lists, disjoint component trees, a fresh run that succeeds: remove_absence_time_list applied to the result "
     "of the run with ANY absence list (any order, duplicates, steps beyond the end) has the same time, status, live state and the same logs and cost lists at every level as the run without absence (lock-step "
     "simulation on the behaviour-relevant key of the state: every phase computes the key of its result from the key of its argument, an absence step is a stutter, __update is idempotent on the key; "
     "popping sorted(set(L)) from a log keeps exactly the entries at unlisted positions); PERT scratch values are not compared. at run level an individually absent worker or facility is ABSENCE in every allocated / performed / recorded snapshot of the step and so contributes and costs nothing. PARTIAL: the "
-    "deletion clause for TSLACK / EST on networks with SS/FF/SF links and for FIFO, is searched by the oracle; for FIFO the clause is false: a recorded finding (known_findings.json) and, on the model, the theorem C10_deletion_refuted_for_FIFO (a three-task witness evaluated by vm_compute; the same case is in the corpus for the implementation).",
+    "deletion clause for TSLACK on networks with SS/FF/SF links and for FIFO, is searched by the oracle; for FIFO the clause is false: a recorded finding (known_findings.json) and, on the model, the theorem C10_deletion_refuted_for_FIFO (a three-task witness evaluated by vm_compute; the same case is in the corpus for the implementation).",
     "note": COMMON_NOTE.replace("no axioms (Print Assumptions: closed under the global context)", "the deletion theorem uses one standard-library axiom, functional_extensionality_dep (through the idempotence of __update); the other C10 theorems are closed under the global context") +
             " PARTIAL: deletion clause searched for rules 0, 1 outside FS DAGs and for rule 4; KNOWN FINDING C10/f-fifo.",
     "technique": "Coq proof: phase characterisations + ghost-history log representation + key congruence / stutter simulation between the two runs; oracle (incl. deletion vs absence-free run) + full-state correspondence"}
